@@ -106,9 +106,7 @@ Qed.
 
 (** ** [CHttp] *)
 
-(** what the driver guarantees for an http case: a non-negative Age value, and
-    both clock readings of the bracket in one second (so the apparent age is
-    the same at both ends) *)
+(** what the driver guarantees for an http case: a non-negative Age value, bracket width and body delay *)
 Definition wf_http (h : hvals) (now dmax bdelay : Z) : Prop :=
   0 <= hv_age h /\ 0 <= dmax /\ 0 <= bdelay.
 
